@@ -231,8 +231,14 @@ class DFXPReader(BaseReader):
                 # characters.
                 # the pattern stops at the first line break: keep the words of
                 # text that is wrapped over several source lines
-                tag_text = ' '.join(
-                    [result.groups()[0]] + tag[result.end():].split())
+                tag_text = result.groups()[0]
+                remainder = tag[result.end():]
+                if remainder.split():
+                    tag_text = ' '.join(
+                        [tag_text.rstrip()] + remainder.split())
+                    if remainder[-1].isspace():
+                        # keep the word boundary before a following element
+                        tag_text += ' '
                 node = CaptionNode.create_text(
                     tag_text, layout_info=tag.layout_info)
                 self.nodes.append(node)
